@@ -87,8 +87,50 @@ def extend(base, lo, hi, limit=9):
             break
     return list(base) + extra
 
+# ---------------------------------------------------------------- string literals
+STR = re.compile(r'"((?:\\.|[^"\\\n])*)"')
+_scache = {}
+
+def mined_strings(roots=None):
+    """short string literals (1..40 bytes, no spaces at the ends, printable ASCII) of the non-test Go sources"""
+    key = tuple(roots or ROOTS)
+    if key in _scache:
+        return _scache[key]
+    vals = set()
+    for root in key:
+        for dp, _, fs in os.walk(root):
+            for f in fs:
+                if not f.endswith(".go") or f.endswith("_test.go"):
+                    continue
+                try:
+                    src = open(os.path.join(dp, f), encoding="utf-8", errors="replace").read()
+                except OSError:
+                    continue
+                src = re.sub(r"/\*.*?\*/", " ", src, flags=re.S)
+                for line in src.splitlines():
+                    line = re.sub(r"//.*$", "", line) if '"' not in line.split("//")[0] or line.count('"') % 2 == 0 else line
+                    if line.lstrip().startswith(("import", "package")) or re.match(r'\s*"[\w./-]+"\s*$', line):
+                        continue
+                    for m in STR.finditer(line):
+                        v = m.group(1)
+                        if "\\" in v or "%" in v:
+                            continue
+                        if 1 <= len(v) <= 40 and v == v.strip() and all(32 < ord(ch) < 127 for ch in v):
+                            vals.add(v)
+    _scache[key] = sorted(vals)
+    return _scache[key]
+
+def new_strings(limit=12):
+    """string literals the pinned tree does not have (lib/baseline_strings.json): new configuration keys, option words, magic values"""
+    import json
+    try:
+        base = set(json.load(open(os.path.join(os.path.dirname(__file__), "baseline_strings.json"))))
+    except Exception:
+        return []
+    return [v for v in mined_strings() if v not in base][:limit]
+
 def summary():
-    return dict(mined_constants=mined(), new_constants=new_constants())
+    return dict(mined_constants=mined(), new_constants=new_constants(), new_strings=new_strings())
 
 if __name__ == "__main__":
     print(summary())
